@@ -22,6 +22,7 @@ def support_args(regex=True):
     env = dict(vlib.ENV)
     with vlib.BuildLock():
         main = os.path.join(E2E, "src", "main.rs")
+        os.makedirs(os.path.dirname(main), exist_ok=True)
         open(main, "w").write("fn main() {}\n// %s\n" % os.urandom(4).hex())
         cmd = ["cargo", "build", "--offline", "-v"]
         if not regex:
